@@ -119,8 +119,8 @@ pub fn agg_model(op: AggOp, x: &[X], y: &[X]) -> Vec<Exp> {
             None => (x.len() - n) as f64,
             Some(t) => v.iter().filter(|a| **a == t).count() as f64,
         })],
-        VFirst | First => vec![Exp::of(v.first().cloned())],
-        VLast | Last => vec![Exp::of(v.last().cloned())],
+        VFirst | First => vec![v.first().map_or(Exp::NULL, |a| e(*a))],
+        VLast | Last => vec![v.last().map_or(Exp::NULL, |a| e(*a))],
         VSum | Sum => vec![if n == 0 { Exp::NULL } else { e(stats::sum(&v)) }],
         VMean | Mean => vec![Exp::of(stats::mean(&v))],
         NSum => vec![e(n as f64), if n == 0 { Exp::NULL } else { e(stats::sum(&v)) }],
